@@ -298,7 +298,11 @@ C10_PayerConsent(x) ==
         IF x.ev.paydid # "" THEN HasPay(x.pre, x.ev.paydid) /\ a = PayOf(x.pre, x.ev.paydid) /\ a = x.ev.creator
         ELSE /\ HasPay(x.pre, x.ev.owner) /\ a = PayOf(x.pre, x.ev.owner)
              /\ \/ (x.ev.provider = x.ev.gw /\ ActsFor(x.pre, x.ev.creator, x.ev.gw))
-                \/ Has(x.pre.bindings, "acc", x.ev.creator) /\ Get(x.pre.bindings, "acc", x.ev.creator).did = x.ev.owner
+                \* "an account bound to the owner": bound in the account->did table AND still listed by the did (a rotation
+                \* that dropped the account must have taken both away)
+                \/ (/\ Has(x.pre.bindings, "acc", x.ev.creator) /\ Get(x.pre.bindings, "acc", x.ev.creator).did = x.ev.owner
+                    /\ \E i \in 1..Len(x.pre.accLists) : x.pre.accLists[i].did = x.ev.owner
+                          /\ \E j \in 1..Len(x.pre.accIds) : x.pre.accIds[j].acc = x.ev.creator /\ InSeq(x.pre.accIds[j].ad, x.pre.accLists[i].accs))
 
 \* a renewal is charged to the DID that signed it (the model's owner), never to a grantee who happened to make the last update
 C10_RenewPayerIsSigner_app(x) == Ok(x) /\ Kind(x) = "Renew"
